@@ -253,14 +253,14 @@ func (e *Engine) model(st *State, fr *Frame, x *ssa.Call, callee *ssa.Function, 
 			st.addLT(V(r), strLen(h))
 			if h.Const == nil && name == "strings.IndexByte" {
 				if c, okc := constOf(args[1]); okc {
-					st.hits[r] = searchHit{h: h, c: int(c), mask: maskOf(int(c) & 0xff)}
+					st.hits[r] = searchHit{h: h, c: int(c), mask: maskOf(int(c) & 0xff), org: x}
 				} else if bv, okb := args[1].(ByteV); okb {
 					st.hits[r] = searchHit{h: h, c: -1, mask: func() Mask {
 						if bv.Tab != nil {
 							return fullMask()
 						}
 						return e.mask(st, bv)
-					}()}
+					}(), org: x}
 				}
 			}
 		} else if h, ok := args[0].(SliceV); ok {
@@ -276,7 +276,7 @@ func (e *Engine) model(st *State, fr *Frame, x *ssa.Call, callee *ssa.Function, 
 			st.addLE(V(r), strLen(h).Sub(strLen(n)))
 			st.addLE(V(r), strLen(h))
 			if h.Const == nil && name == "strings.Index" {
-				st.hits[r] = searchHit{h: h, c: -1, mask: fullMask(), nlen: strLen(n)}
+				st.hits[r] = searchHit{h: h, c: -1, mask: fullMask(), nlen: strLen(n), org: x}
 			}
 			if n.Const == nil && h.Const == nil && n.Root == h.Root && e.proveLE(st, h.Lo, n.Lo) && e.proveLE(st, n.Hi, h.Hi) {
 				// needle is a substring of the haystack itself: always found, at or before its own offset
